@@ -42,6 +42,7 @@ type lreq struct {
 	plan    plan
 	gatec   chan bool
 	entered int64 // clock at handler entry, 0 = never
+	exited  int64 // clock when the implementation's work for it (handler, or the late answer) was over
 	ftype   uint8 // type of the fid at handler entry (the framework clears req.Fid once the request is answered)
 	answer  string
 	nans    int
@@ -88,6 +89,7 @@ type lifeSess struct {
 	destroyed []uint32
 	perturb   func(point string)
 	logClosed bool
+	paused    int32 // the client has stopped reading replies
 }
 
 func (s *lifeSess) tick() int64 { return atomic.AddInt64(&s.clock, 1) }
@@ -385,6 +387,7 @@ func (o *lifeOps) do(r *g.SrvReq) {
 		for i := 0; i < n; i++ {
 			o.respond(s, q)
 		}
+		atomic.StoreInt64(&q.exited, s.tick())
 	}
 	if q.plan.async {
 		go func() {
@@ -493,6 +496,9 @@ func connectLife(srv *g.Srv, o *lifeOps, maxpend int) *lifeSess {
 func (s *lifeSess) reader() {
 	defer close(s.rdone)
 	for {
+		for atomic.LoadInt32(&s.paused) != 0 {
+			time.Sleep(200 * time.Microsecond)
+		}
 		buf, err := readFrame(s.c, time.Hour)
 		if err != nil {
 			return
